@@ -401,27 +401,37 @@ void ares_set_socket_callback(ares_channel_t           *channel,
   if (channel == NULL) {
     return;
   }
+  ares_channel_lock(channel);
   channel->sock_create_cb      = cb;
   channel->sock_create_cb_data = data;
+  ares_channel_unlock(channel);
 }
 
 void ares_set_socket_configure_callback(ares_channel_t           *channel,
                                         ares_sock_config_callback cb,
                                         void                     *data)
 {
-  if (channel == NULL || channel->optmask & ARES_OPT_EVENT_THREAD) {
+  if (channel == NULL) {
     return;
   }
-  channel->sock_config_cb      = cb;
-  channel->sock_config_cb_data = data;
+  ares_channel_lock(channel);
+  if (!(channel->optmask & ARES_OPT_EVENT_THREAD)) {
+    channel->sock_config_cb      = cb;
+    channel->sock_config_cb_data = data;
+  }
+  ares_channel_unlock(channel);
 }
 
 void ares_set_pending_write_cb(ares_channel_t       *channel,
                                ares_pending_write_cb callback, void *user_data)
 {
-  if (channel == NULL || channel->optmask & ARES_OPT_EVENT_THREAD) {
+  if (channel == NULL) {
     return;
   }
-  channel->notify_pending_write_cb      = callback;
-  channel->notify_pending_write_cb_data = user_data;
+  ares_channel_lock(channel);
+  if (!(channel->optmask & ARES_OPT_EVENT_THREAD)) {
+    channel->notify_pending_write_cb      = callback;
+    channel->notify_pending_write_cb_data = user_data;
+  }
+  ares_channel_unlock(channel);
 }
